@@ -155,7 +155,30 @@ pub mod trusted {
     pub broadcast axiom fn axiom_conn_id_injective(a: ConnectionId, b: ConnectionId)
         ensures #[trigger] a.id() == #[trigger] b.id() <==> a == b;
 }
+
+// PROVED helper lemmas (not assumptions): a map/set mutation that does not change the content leaves the map/set equal.
+// They give the solver the extensional equality that a released, unused hash-map entry or a no-op removal calls for.
+pub mod noop_lemmas {
+    use super::*;
+    pub broadcast proof fn lemma_map_insert_same<K, V>(m: Map<K, V>, k: K, v: V)
+        requires m.contains_key(k), m[k] == v
+        ensures #[trigger] m.insert(k, v) == m
+    { assert(m.insert(k, v) =~= m); }
+    pub broadcast proof fn lemma_map_remove_absent<K, V>(m: Map<K, V>, k: K)
+        requires !m.contains_key(k)
+        ensures #[trigger] m.remove(k) == m
+    { assert(m.remove(k) =~= m); }
+    pub broadcast proof fn lemma_set_insert_same<A>(s: Set<A>, a: A)
+        requires s.contains(a)
+        ensures #[trigger] s.insert(a) == s
+    { assert(s.insert(a) =~= s); }
+    pub broadcast proof fn lemma_set_remove_absent<A>(s: Set<A>, a: A)
+        requires !s.contains(a)
+        ensures #[trigger] s.remove(a) == s
+    { assert(s.remove(a) =~= s); }
+}
 broadcast use {
+    noop_lemmas::lemma_map_insert_same, noop_lemmas::lemma_map_remove_absent, noop_lemmas::lemma_set_insert_same, noop_lemmas::lemma_set_remove_absent,
     trusted::axiom_conn_id_key_model, trusted::axiom_channel_cookie_key_model, trusted::axiom_conn_id_injective,
     trusted::axiom_bl_cookie_key_model, trusted::axiom_filter_key_model, trusted::axiom_object_uuid_key_model,
     trusted::axiom_svc_key_model, trusted::axiom_object_cookie_key_model, trusted::axiom_service_cookie_key_model,
